@@ -17,6 +17,15 @@ func init() {
 		s := (*a[0].(*value)).(structure)
 		return &s[len(s)-1]
 	}
+	// maps.Clone is implemented by the runtime
+	intrinsics["maps.Clone"] = func(fr *frame, a []value) value {
+		m, _ := a[0].(*smap)
+		if m == nil {
+			return (*smap)(nil)
+		}
+		c := &smap{keyT: m.keyT, ents: append([]smapEntry(nil), m.ents...)}
+		return c
+	}
 	intrinsics["(*sync/atomic.Int64).Add"] = func(fr *frame, a []value) value {
 		c := atomicField(a)
 		*c = (*c).(int64) + a[1].(int64)
